@@ -134,6 +134,15 @@ class Ctx:
     def build_go(self, prebuild=False, aalog=False):
         """Build the harness (and optionally the real binaries) from /repo's working tree."""
         h = os.path.join(VERIF, 'harness')
+        if os.path.realpath(REPO) != '/repo':
+            # VERIF_REPO points at another tree (a snapshot for a background run): the harness module is copied and its
+            # `replace` directive pointed there, so that what is built is that tree and not /repo
+            h2 = self.path('harness-src')
+            if not os.path.exists(h2):
+                shutil.copytree(h, h2)
+                gm = open(os.path.join(h2, 'go.mod')).read().replace('=> /repo', '=> ' + os.path.realpath(REPO))
+                open(os.path.join(h2, 'go.mod'), 'w').write(gm)
+            h = h2
         rc, out = sh(['go', 'build', '-tags', 'verif', '-o', self.path('vharness'), './cmd/vharness'],
                      cwd=h, env=GOENV)
         if rc != 0:
